@@ -149,7 +149,8 @@ def run(mid, all_checks=False, tier="quick"):
     finally:
         sh(["git", "-C", REPO, "checkout", "--", "."])
         # never leave a harness binary built from the patched crate behind
-        sh(["cargo", "build", "--release", "--offline"], cwd=os.path.join(ROOT, "harness"))
+        if not os.environ.get("AVG_NO_REBUILD"):      # (the scratch lanes rebuild at the start of the next run anyway)
+            sh(["cargo", "build", "--release", "--offline"], cwd=os.path.join(ROOT, "harness"))
         # the evidence files written while the patch was applied do not describe /repo: restore them
         sh(["git", "checkout", "--", "evidence"], cwd=ROOT)
     fresh = load_meta(mid)          # `confirm` may have written in the meantime
